@@ -74,6 +74,7 @@ impl Cfg {
             prefix: "P".into(),
             package: "org.other.mod".into(),
             go_uppercase_acronyms: vec!["ID".into(), "URL".into()],
+            go_no_pointer_slice: true,
             swift_default_decorators: vec!["Sendable".into()],
             swift_default_generic_constraints: vec!["Equatable".into()],
             ..Default::default()
